@@ -159,7 +159,7 @@ def read_impl(text):
     from shexer.io.graph.yielder.big_ttl_triples_yielder import BigTtlTriplesYielder
     y = BigTtlTriplesYielder(raw_graph=text)
     old = signal.signal(signal.SIGALRM, _alarm)
-    signal.alarm(30)
+    signal.alarm(30 if read_impl.hangs < 2 else 2)
     try:
         out = []
         for s, p, o in y.yield_triples():
@@ -168,12 +168,16 @@ def read_impl(text):
             out.append((so, str(p), oo))
         return ('ok', out, y.error_triples)
     except Hang:
+        read_impl.hangs += 1
         return ('hang', [], 0)
     except Exception as e:
         return ('exc:%s:%s' % (type(e).__name__, str(e)[:80]), [], 0)
     finally:
         signal.alarm(0)
         signal.signal(signal.SIGALRM, old)
+
+
+read_impl.hangs = 0
 
 
 def rdflib_triples(text):
